@@ -307,3 +307,46 @@ Theorem C03_account_found_after_load : forall pre c k a, (0 < pre)%nat -> WF c -
   lookup_ix (indexed pre 0 (slots c)) (slots c) (a_id a) = Some k.
 Proof. exact account_found_after_load. Qed.
 Print Assumptions C03_account_found_after_load.
+
+(* ---- the clock. [expired keep age] (Model/C03.v) = the clean-up removes a non-exempt account whose last login is [age] seconds
+   before the clock reading ([age] < 0: the stored stamp is LATER than the clock reads - the clock was stepped back, or
+   the stamp came from another host). Exactly, for every age of either sign: removed iff at least
+   (keep + CLEAN_USER_EXPIRE_RANGE_MIN + 1) whole minutes have passed. *)
+Theorem C03_expired_exact : forall keep age, 0 <= keep + ptttype.CLEAN_USER_EXPIRE_RANGE_MIN ->
+  0 <= ptttype.CLEAN_USER_EXPIRE_RANGE_MIN ->
+  Model.C03.expired keep age = ((keep + ptttype.CLEAN_USER_EXPIRE_RANGE_MIN + 1) * 60 <=? age).
+Proof. exact expired_spec. Qed.
+Print Assumptions C03_expired_exact.
+
+(* an account whose last-login stamp is not before the clock reading is never removed: a registration on a full table
+   cannot take the slot of an account that was just used, whatever the clock did afterwards *)
+Theorem C03_stamp_ahead_never_expires : forall keep age, 0 <= keep + ptttype.CLEAN_USER_EXPIRE_RANGE_MIN ->
+  age <= 0 -> Model.C03.expired keep age = false.
+Proof. exact stamp_ahead_never_expires. Qed.
+Print Assumptions C03_stamp_ahead_never_expires.
+
+(* stepping the clock back never makes an account expire; and the ages the harness gives to accounts stay on their
+   side of the limit under every step back it takes - which is why operation 12 leaves the model's table as it is *)
+Theorem C03_clock_back_keeps_unexpired : forall keep age d, 0 <= keep + ptttype.CLEAN_USER_EXPIRE_RANGE_MIN ->
+  0 <= d -> Model.C03.expired keep age = false -> Model.C03.expired keep (age - d) = false.
+Proof. exact clock_back_keeps_unexpired. Qed.
+Print Assumptions C03_clock_back_keeps_unexpired.
+
+Theorem C03_harness_ages_stable : forall code d, 0 <= d <= MAX_CLOCK_BACK ->
+  Model.C03.expired KEEP_MIN_UNREGGED (age_of code - d) = Model.C03.expired KEEP_MIN_UNREGGED (age_of code).
+Proof. exact harness_ages_stable. Qed.
+Print Assumptions C03_harness_ages_stable.
+
+(* ---- the on-line table: an account that has an entry re-uses it, from whatever address it logs in (the address is not
+   an argument of [utmp_take]) ... *)
+Theorem C03_utmp_reuse : forall size ut pid, In pid ut -> utmp_take size ut pid = Some ut.
+Proof. exact utmp_take_reuse. Qed.
+Print Assumptions C03_utmp_reuse.
+
+(* ... hence, as long as the accounts that log in or register during one shared-memory lifetime are among at most [size]
+   accounts, no login is ever refused for want of an entry, however many logins there are *)
+Theorem C03_utmp_never_full : forall size accts pids ut,
+  (length accts <= size)%nat -> NoDup ut -> incl ut accts -> incl pids accts ->
+  exists ut', utmp_run size ut pids = Some ut' /\ NoDup ut' /\ incl ut' accts.
+Proof. exact utmp_never_full. Qed.
+Print Assumptions C03_utmp_never_full.
